@@ -1,0 +1,39 @@
+//go:build verif
+
+package layer
+
+import (
+	"time"
+
+	"github.com/containerd/stargz-snapshotter/fs/reader"
+	"github.com/containerd/stargz-snapshotter/fs/remote"
+	"github.com/containerd/stargz-snapshotter/task"
+	digest "github.com/opencontainers/go-digest"
+	ocispec "github.com/opencontainers/image-spec/specs-go/v1"
+)
+
+// Verification hook (build tag "verif" only) for property C01: build a layer object around a given
+// VerifiableReader the way Resolver.Resolve does (no FUSE, no registry), and expose its reader. No behaviour change.
+
+// VerifNewLayerC01 wraps newLayer.
+func VerifNewLayerC01(vr *reader.VerifiableReader, blob remote.Blob, dgst digest.Digest) Layer {
+	return &layerRef{newLayer(
+		&Resolver{
+			prefetchTimeout:       time.Second,
+			backgroundTaskManager: task.NewBackgroundTaskManager(10, 5*time.Second),
+		},
+		ocispec.Descriptor{Digest: dgst},
+		&blobRef{blob, func(bool) {}},
+		vr,
+		passThroughConfig{},
+		false,
+	), func(bool) {}}
+}
+
+// VerifLayerReaderC01 returns l.r (nil until the layer was verified or skip-verified).
+func VerifLayerReaderC01(l Layer) reader.Reader {
+	if lr, ok := l.(*layerRef); ok {
+		return lr.layer.r
+	}
+	return nil
+}
